@@ -70,6 +70,12 @@ PROPOSED_FINDINGS = [
   "witness": {"module": "M DEFINITIONS AUTOMATIC TAGS ::= BEGIN T ::= IA5String (1..5) END", "opts": [],
               "c_output": "#error m.asn1:2: Value of T cannot be determined"},
   "matcher": "compile error is the emitted '#error ... cannot be determined' line"},
+ {"id": "F86", "property": "C10", "status": "known",
+  "what": "an ENUMERATED item / INTEGER named number called free, print or constraint in a named type T becomes the enum constant T_free / T_print / "
+          "T_constraint, the name of the generated function declared in the same header (asn_struct_free_f T_free; ...): exit 0, emitted C does not compile",
+  "witness": {"module": "M DEFINITIONS AUTOMATIC TAGS ::= BEGIN T ::= ENUMERATED { free, busy } END", "opts": ["-fcompound-names"],
+              "c_output": "T.h:32:19: error: 'T_free' redeclared as different kind of symbol"},
+  "matcher": "a named ENUMERATED / INTEGER-with-named-numbers type has an item called free, print or constraint and the compile error is '<T>_<item> redeclared as different kind of symbol'"},
  {"id": "F63", "property": "C10", "status": "known",
   "what": "a CHOICE that directly contains itself as an untagged alternative (T ::= CHOICE { a T, b INTEGER }) makes asn1c die with SIGSEGV (unbounded recursion in the tag fetcher), empty stderr",
   "witness": {"module": "M DEFINITIONS ::= BEGIN T ::= CHOICE { a T, b INTEGER } END", "opts": [],
@@ -345,10 +351,13 @@ def classify(res):
         if res["stderr_empty"]: return [("silent-nonzero-exit", None, f"rc={res['rc']}")]
         return []
     for f, msg in res.get("compile_errors") or []:
-        if re.search(r"DEFAULT\s+-\d", text) and re.search(r"before .-. token|asn_DFL_\d+\w*-", msg): out.append(("compile", "F43", f + ": " + msg))
+        if re.search(r"asn_DFL_\d+_\w+_-\d", msg) or (re.search(r"DEFAULT\s+-\d", text) and re.search(r"before .-. token", msg)):
+            out.append(("compile", "F43", f + ": " + msg))     # negative DEFAULT (literal or through an ENUMERATED item with a negative value)
         elif re.search(r"asn_DEF_Member_\d+. undeclared", msg) and re.search(r"OF\s+(\[[^\]]*\]\s*(IMPLICIT|EXPLICIT)?\s*)?INTEGER\s*\(", text): out.append(("compile", "F44", f + ": " + msg))
         elif "-fno-constraints" in res["opts"] and re.search(r"asn_(OER|PER)_memb_\w+_constr_\d+. undeclared", msg): out.append(("compile", "F84", f + ": " + msg))
         elif "#error" in msg and "cannot be determined" in msg: out.append(("compile", "F85", f + ": " + msg))
+        elif re.search(r"_(free|print|constraint). redeclared as different kind of symbol", msg) and \
+             re.search(r"(ENUMERATED|INTEGER)\s*\{[^}]*\b(free|print|constraint)\b", text): out.append(("compile", "F86", f + ": " + msg))
         elif "expected expression before" in msg and re.search(r"\{\s*(BOOLEAN|INTEGER|NULL|REAL|OCTET STRING|BIT STRING|IA5String|UTF8String)\s+IDENTIFIED BY", text): out.append(("compile", "F27", f + ": " + msg))
         else: out.append(("compile", None, f + ": " + msg))
     if out: return out
